@@ -460,6 +460,11 @@ class Gen:
             rec3 = dict(rec2, obs="partnan", tgap=0)
             self.emit("PREDICT_PAIR", m=m0, recipe=rec3, alter="partnan2", seq=True)
             self.emit("PREDICT_PAIR", m=m0, recipe=dict(rec2, tgap=0), alter="monthnan")
+            # the object is stored AFTER its short prediction and the pair is asked of the restored copy
+            doc = self.store(m0)
+            m1 = self.load(doc)
+            self.emit("PREDICT_PAIR", m=m1, recipe=dict(rec2, tgap=0), alter=r.choice(["shuffled", "allnan", "absent", "scaled"]))
+            self.cost += 2 * PRED_COST.get(self.models[m0]["fam"], 0.3)
             if self.models[m0]["fam"] == "billing":
                 self.emit("PREDICT_PAIR", m=m0, recipe=dict(rec2, tgap=0), alter="scaled", agg=r.choice(["monthly", "bimonthly"]))
             self.cost += 4 * PRED_COST.get(self.models[m0]["fam"], 0.3)
